@@ -5,7 +5,8 @@ equals (min ∧ grace ∧ found) ∨ max on all 16 rows (the 4 rows max ∧ ¬mi
 `Some(start) ∧ end − start > dur`; the three state getters return the fields they are named after.
 R2 completion reason = TargetFound iff target_found(). R3 advance_round follows publish_trace on exactly the
 publishing traces and resets round_start to a fresh SystemTime::now(). R4 loop shape of Strategy::run. R5 recv_response performs at most one read of the network and has no loop, so the policy is
-re-evaluated after every read timeout at the latest.
+re-evaluated after every read timeout at the latest. R1p rounds are published only through update_round: every call chain to publish_trace passes through it (private helpers on the
+way are inlined into the R1 table). R6 the durations the policy compares are the configured ones: StrategyConfig takes every field from the tracer field of the same name, unchanged.
 Not decided: the real-time bound (platform poll + send latency), the clock itself.
 """
 import re
